@@ -184,7 +184,7 @@ def run_retry(case):
             t_close = sessions[sess][1] if sessions[sess][1] is not None else t_end
             if r.get('thread'):
                 # issued concurrently with the close: it may or may not have made it onto the link, but nothing after the close
-                late = [x for x in times if x > t_close + EPS]
+                late = [x for x in times if x > t_close + EPS + held]
                 if late:
                     out.fail('retry:unexpected-transmission:after-close', '%s: request %d (issued by another thread at the close instant %.4f) transmitted at %r' % (
                         desc, i, t_close, [round(x, 4) for x in times]))
